@@ -6,6 +6,15 @@ CLAIMS = {
  'C15': dict(text="Theorems over the layout functions regenerated from super/super.go by the translator (all accepted sizes < 2^64: regions contiguous, disjoint, inside the disk; inode addresses disjoint; mkfs bitmap marks exactly the non-data blocks) + correspondence of the generated layout and the mkfs model with the real MakeNfs over a dense size range (fields, every bitmap bit, free counts, fill-and-free of whole disks).",
              design="4/C15", technique="Coq proof over translated super.go + differential run of MakeNfs per size",
              note="Trusted: translator for super.go, hand model of markAlloc (tied by bit-exact comparison on every explored size), alloc.Alloc exercised not modelled."),
+ 'C02': dict(text="Laws of the reference file system AM proved in Coq for all states, calls and hints (a failing call is the identity, read-only procedures are the identity, unsupported procedures and restarts have no effect) + the implementation is compared with the extracted AM reply by reply and with the extracted abstraction of its logical disk after every RPC of generated sequences (all 22 procedures, stale handles, names of every length class, offsets at indirection boundaries, restarts, unstable on/off). The refinement Go code -> AM is sampled, not proved (C02_partial).",
+             design="4/C02", technique="Coq laws of the reference model + differential execution of extracted model against the real server",
+             note="Trusted: AM as the statement of NFSv3 semantics (Appendix A of DESIGN.md), abs_disk, extraction, OCaml glue; refinement is sampled."),
+ 'C08': dict(text="On the reference AM, for every history: a dead handle stays dead across any later calls and restarts (dead_forever), a successful creation returns a never-issued (number, generation) pair (create_fresh), and every procedure/handle position refuses an unresolvable handle without effect, as STALE (stale_everywhere, stale_class). The implementation is compared with AM while dead handles are re-presented to all procedures and positions after restarts that force inode-number reuse; AM checks the freshness of every handle the implementation returns.",
+             design="4/C08", technique="Coq proof on the reference model + differential execution with dead-handle replay",
+             note="Trusted: AM, handle codec model (16 bytes little-endian), extraction; refinement sampled."),
+ 'C09': dict(text="On the reference AM a call answered with an error is the identity on the state, for all states/calls/hints, hence any suffix behaves as if it had not been issued (C09_failed_call_identity, C09_suffix_equal); C09_partial derives the property for any implementation that refines AM. The refinement is sampled: nearly-full disks of several sizes, requests that fail late; abs_disk of the implementation's disk, allocator counts and wf_disk compared after every failing RPC and over suffixes and restarts.",
+             design="4/C09", technique="Coq proof on the reference model + differential execution on nearly-full disks",
+             note="Trusted: AM, abs_disk/wf_disk, extraction; the Go abort path itself is not modelled, only observed."),
 }
 props = [json.loads(l) for l in open(os.path.join(V, 'properties.jsonl'))]
 m = json.load(open(os.path.join(V, 'MANIFEST.json')))
